@@ -225,7 +225,9 @@ class Policy(object):
             raise Inconclusive("token %r compared with literal %r" % (t, lit), interp.where())
         if t.off and not self.allow_offset_cmp:
             raise Inconclusive("comparison of an incremented token %r with %r" % (t, lit), interp.where())
-        if lit not in self.allow_int_literals and not self.allow_offset_cmp:
+        if getattr(self, "log_literals", None) is not None and t.dom in getattr(self, "free_literal_doms", ()):
+            self.log_literals.add(lit)
+        elif lit not in self.allow_int_literals and not self.allow_offset_cmp:
             raise Inconclusive("integer token %r compared with literal %r" % (t, lit), interp.where())
         tv = t.val + t.off
         return (tv, lit) if ta else (lit, tv)
@@ -494,9 +496,20 @@ class Interp(object):
                 return self._cmp(op, x, y)
             if op in ("AddWithOverflow", "Add", "AddUnchecked") and isinstance(a, Tok) and a.kind == "I" \
                     and isinstance(b, int) and 0 <= b <= 2:
-                self.obligations.append(("add", self.where(), a, b))
+                self.obligations.append(("add", self.where(), a, b, (self.stack[-1][0], self.stack[-1][1]) if self.stack else None))
                 t = Tok("I", a.name, a.val, a.off + b, a.dom, a.extra)
                 return (t, False) if op == "AddWithOverflow" else t
+            if op in ("SubWithOverflow", "Sub", "SubUnchecked") and getattr(self.policy, "allow_sub", False):
+                if isinstance(a, Tok) and a.kind == "I" and isinstance(b, int) and 0 <= b <= 2:
+                    # class-wise exact as long as the world's representatives include the boundaries 0..b
+                    self.obligations.append(("sub", self.where(), a, b))
+                    t = Tok("I", a.name, a.val, a.off - b, a.dom, a.extra)
+                    over = a.val + a.off - b < 0
+                    return (t, over) if op == "SubWithOverflow" else t
+                if isinstance(a, Tok) and isinstance(b, Tok) and a.kind == "A" and b.kind == "A":
+                    self.obligations.append(("ptrdiff", self.where(), a.name, b.name))
+                    t = Tok("D", "%s-%s" % (a.name, b.name), None, extra={"minuend": a.name, "subtrahend": b.name})
+                    return (t, False) if op == "SubWithOverflow" else t
             raise Inconclusive("operation %s on token %r %r" % (op, a, b), self.where())
         if isinstance(a, Ptr) or isinstance(b, Ptr):
             raise Inconclusive("pointer arithmetic/comparison %s" % op, self.where())
